@@ -39,6 +39,26 @@ def tag_get(tags, cb):
     return None
 
 
+FAILING = ('fail', 'skip')
+OUTCOME_TY = 'core::operations::InsertionOutcome'
+
+
+def dirty_fail(summ):
+    """A failing outcome (Err / None, or Ok carrying InsertionOutcome::Skipped) with the resource dirty."""
+    return any(m == 1 and cls in FAILING for (cls, m) in summ)
+
+
+def edge_compatible(known, cls):
+    """May a path on which call `cb` ended with outcome `known` take an edge labelled `cls`?
+    Result / Option edges: 'ok' (Ok / Some - also taken by Ok(Skipped)) and 'fail'; variant edges of a switch on the
+    InsertionOutcome the call returned: 'skip' (Skipped arm) and 'inserted' (any other arm)."""
+    if cls == 'ok':
+        return known in ('ok', 'skip')
+    if cls == 'inserted':
+        return known == 'ok'
+    return known == cls
+
+
 class TxnEngine(pair.PairEngine):
 
     def __init__(self, prog, mod, resources, m_pred=None, infeasible=None, inverse_ok=None):
@@ -51,6 +71,9 @@ class TxnEngine(pair.PairEngine):
         # so an owner's summary is read as fail => clean by everyone else (each owner's own
         # summary is still computed honestly and is what its obligation is judged on)
         self.assume_clean = set()
+        # follow an InsertionOutcome returned by a callee through `match` arms and Ok(..) re-wrapping, so that a
+        # passed-through Skipped counts as a failing exit (off: only a locally built Skipped does)
+        self.track_skip = True
 
     # ---- per-body metadata
     def body_meta(self, q):
@@ -69,9 +92,10 @@ class TxnEngine(pair.PairEngine):
             cls = e['cls']
             if cls == 'ok':
                 if self._is_skipped(body, e.get('stmt')):
-                    exits[bb] = 'fail'
+                    exits[bb] = 'skip'
                 else:
-                    exits[bb] = 'ok'
+                    pay = self._payload_calls(body, q, e.get('stmt')) if self.track_skip else ()
+                    exits[bb] = ('okpay', pay) if pay else 'ok'
             elif cls in ('err', 'residual'):
                 exits[bb] = 'fail'
             elif cls in ('forward', 'callret'):
@@ -91,9 +115,83 @@ class TxnEngine(pair.PairEngine):
             for e_ in cf.err_edges:
                 edge_cls.setdefault(e_, []).append((cb, 'fail'))
         fwd_calls = {cb for cb, cf in cflows.items() if cf.forward_blocks}
-        m = {'exits': exits, 'edge_cls': edge_cls, 'rt': rt, 'fwd_calls': fwd_calls}
+        # variant edges: `match outcome { Inserted {..} => .., Skipped {..} => .. }` on the InsertionOutcome a call returned
+        skip_idx = None
+        adt = self.prog.adts.get(OUTCOME_TY)
+        if adt:
+            for i_, v_ in enumerate(adt.get('variants', [])):
+                if v_.get('name') == 'Skipped':
+                    skip_idx = i_
+        outcome_calls = set()
+        if skip_idx is not None and self.track_skip:
+            for blk in body.blocks:
+                if blk.cleanup or blk.term.k != 'switch':
+                    continue
+                d = blk.term.discr
+                if d.place is None or not d.place.is_local():
+                    continue
+                src = None
+                for (dbb, didx, node) in body.defs.get(d.place.local, []):
+                    if didx != 'term' and node.rv.k == 'discr' and node.rv.place is not None and \
+                            body.locals[node.rv.place.local].startswith(OUTCOME_TY):
+                        src = node.rv.place.local
+                if src is None:
+                    continue
+                cbs = self._origin_calls(body, q, src)
+                if not cbs:
+                    continue
+                outcome_calls |= set(cbs)
+                targets = list(blk.term.values) + ([(None, blk.term.otherwise)] if blk.term.otherwise is not None else [])
+                for (val, tg) in targets:
+                    for cb in cbs:
+                        edge_cls.setdefault((blk.idx, tg), []).append((cb, 'skip' if val == skip_idx else 'inserted'))
+        for ex_ in exits.values():
+            if isinstance(ex_, tuple) and ex_[0] == 'okpay':
+                outcome_calls |= set(ex_[1])
+        m = {'exits': exits, 'edge_cls': edge_cls, 'rt': rt, 'fwd_calls': fwd_calls, 'outcome_calls': outcome_calls}
         self.meta[q] = m
         return m
+
+    def _origin_calls(self, body, q, local):
+        """Call blocks (in this body) whose returned value carries the InsertionOutcome held by `local`."""
+        import valueflow
+        al = self.mod.aliases(q)
+        out = []
+        for leaf in valueflow.sources(body, al, local):
+            if leaf[0] != 'call':
+                continue
+            t, bb = leaf[1], leaf[2]
+            if t.dest is None or not t.dest.is_local() or OUTCOME_TY not in body.locals[t.dest.local]:
+                continue
+            name = t.resolved or t.callee or ''
+            if name in self.prog.bodies and body.blocks[bb].term is t:
+                out.append(bb)
+        return tuple(sorted(set(out)))
+
+    def _payload_calls(self, body, q, stmt, depth=0):
+        """Ok(payload) whose payload contains an InsertionOutcome that was returned by a call (not built here):
+        the exit is a success or a skip according to what that call returned."""
+        if stmt is None or depth > 4:
+            return ()
+        out = set()
+        for o in stmt.rv.ops:
+            if o.place is None:
+                continue
+            l = o.place.local
+            if body.locals[l].startswith(OUTCOME_TY):
+                built_here = all(didx != 'term' and node.rv.k == 'agg' for (_, didx, node) in body.defs.get(l, [])) \
+                    and bool(body.defs.get(l))
+                if not built_here:
+                    out |= set(self._origin_calls(body, q, l))
+                continue
+            if OUTCOME_TY not in body.locals[l]:
+                continue
+            for (bb, idx, node) in body.defs.get(l, []):
+                if idx == 'term':
+                    continue
+                if node.rv.k in ('agg', 'use'):
+                    out |= set(self._payload_calls(body, q, node, depth + 1))
+        return tuple(sorted(out))
 
     def _is_skipped(self, body, stmt, depth=0):
         """Ok(payload) where the payload (transitively) contains InsertionOutcome::Skipped{..}."""
@@ -145,10 +243,11 @@ class TxnEngine(pair.PairEngine):
             callee, cidx = e[1], e[2]
             summ = self.summary.get((callee, cidx), frozenset())
             if callee in self.assume_clean and callee != q:
-                summ = frozenset((cls, 0 if cls == 'fail' else cm) for (cls, cm) in summ)
+                summ = frozenset((cls, 0 if cls in FAILING else cm) for (cls, cm) in summ)
             cb = self.prog.bodies[callee]
-            if cb.kind == 'closure' or self.prog.bodies[q].blocks[b].term.k != 'call' or \
-                    (self.prog.bodies[q].blocks[b].term.resolved or self.prog.bodies[q].blocks[b].term.callee) != callee:
+            direct = self.prog.bodies[q].blocks[b].term.k == 'call' and \
+                (self.prog.bodies[q].blocks[b].term.resolved or self.prog.bodies[q].blocks[b].term.callee) == callee
+            if not direct or (cb.kind == 'closure' and b not in self.body_meta(q)['outcome_calls']):
                 cms = {cm for (_, cm) in summ}
                 return {(m | cm, sv, tag, ex) for (m, sv, tag, ex) in st for cm in cms}
             t = self.prog.bodies[q].blocks[b].term
@@ -156,7 +255,7 @@ class TxnEngine(pair.PairEngine):
             # the outcome of this call is worth remembering only if it matters later: its
             # dirtiness differs between success and failure, or its result may become ours
             ms = {cm for (_, cm) in summ}
-            worth = to_ret or len(ms) > 1 or b in self.body_meta(q)['fwd_calls']
+            worth = to_ret or len(ms) > 1 or b in self.body_meta(q)['fwd_calls'] or b in self.body_meta(q)['outcome_calls']
             out = set()
             for (m, sv, tag, ex) in st:
                 for (cls, cm) in summ:
@@ -188,14 +287,14 @@ class TxnEngine(pair.PairEngine):
             for i, e in enumerate(evs):
                 last_call = term_is_call and i == n_evs - 1 and e[0] in ('call', 'call_nob') and \
                     self.prog.bodies[e[1]].kind != 'closure'
-                if last_call and b in exits and not isinstance(exits[b], tuple):
+                if last_call and b in exits and not (isinstance(exits[b], tuple) and exits[b][0] == 'fwd'):
                     st = {(m, sv, tag, exits[b]) for (m, sv, tag, ex) in st}
                 st = self._apply_t(q, b, st, e)
             if b in exits:
                 ex_b = exits[b]
-                if isinstance(ex_b, tuple) and ex_b[1] == (b,):
+                if isinstance(ex_b, tuple) and ex_b[0] == 'fwd' and ex_b[1] == (b,):
                     # `_0 = call(..)`: a callee without a resource summary leaves no tag
-                    st = {(m, sv, tag, ex if (isinstance(ex, tuple) and ex[1] == (b,)) else ex_b) for (m, sv, tag, ex) in st}
+                    st = {(m, sv, tag, ex if (isinstance(ex, tuple) and ex[0] == 'fwd' and ex[1] == (b,)) else ex_b) for (m, sv, tag, ex) in st}
                 else:
                     st = {(m, sv, tag, ex_b) for (m, sv, tag, ex) in st}
             if body.blocks[b].term.k == 'ret':
@@ -215,10 +314,10 @@ class TxnEngine(pair.PairEngine):
                         ntag = tag
                         for (cb, cls) in ecs:
                             known = tag_get(tag, cb)
-                            if known is not None and known != cls:
+                            if known is not None and not edge_compatible(known, cls):
                                 keep = False
-                            elif known is None and cb in meta['fwd_calls']:
-                                ntag = tag_add(ntag, cb, cls)
+                            elif known is None and (cb in meta['fwd_calls'] or cls in ('skip', 'inserted')):
+                                ntag = tag_add(ntag, cb, 'ok' if cls == 'inserted' else cls)
                         if keep:
                             nst.add((m, sv, ntag, ex))
                     st2 = nst
@@ -236,6 +335,13 @@ class TxnEngine(pair.PairEngine):
             return ('ok',)
         if ex == 'fail':
             return ('fail',)
+        if ex == 'skip':
+            return ('skip',)
+        if isinstance(ex, tuple) and ex[0] == 'okpay':
+            for (cb, cls) in reversed(tag or ()):
+                if cb in ex[1]:
+                    return ('skip',) if cls == 'skip' else ('ok',)
+            return ('ok',)
         if isinstance(ex, tuple):
             # most recent of the candidate calls whose outcome is known on this path
             for (cb, cls) in reversed(tag or ()):
@@ -284,13 +390,13 @@ class TxnEngine(pair.PairEngine):
                 st = self._apply_t(q, b, st, e)
             if b in exits:
                 ex_b = exits[b]
-                if isinstance(ex_b, tuple) and ex_b[1] == (b,):
-                    st = {(m, sv, tag, ex if (isinstance(ex, tuple) and ex[1] == (b,)) else ex_b) for (m, sv, tag, ex) in st}
+                if isinstance(ex_b, tuple) and ex_b[0] == 'fwd' and ex_b[1] == (b,):
+                    st = {(m, sv, tag, ex if (isinstance(ex, tuple) and ex[0] == 'fwd' and ex[1] == (b,)) else ex_b) for (m, sv, tag, ex) in st}
                 else:
                     st = {(m, sv, tag, ex_b) for (m, sv, tag, ex) in st}
             for s2 in st:
                 if body.blocks[b].term.k == 'ret':
-                    if s2[0] == 1 and 'fail' in self._exit_classes(meta, s2[2], s2[3]):
+                    if s2[0] == 1 and set(FAILING) & set(self._exit_classes(meta, s2[2], s2[3])):
                         goal = (node, s2)
                         break
                 for nb in body.succs(b):
@@ -304,10 +410,10 @@ class TxnEngine(pair.PairEngine):
                         ntag = tag
                         for (cb, cls) in ecs:
                             known = tag_get(tag, cb)
-                            if known is not None and known != cls:
+                            if known is not None and not edge_compatible(known, cls):
                                 keep = False
-                            elif known is None and cb in meta['fwd_calls']:
-                                ntag = tag_add(ntag, cb, cls)
+                            elif known is None and (cb in meta['fwd_calls'] or cls in ('skip', 'inserted')):
+                                ntag = tag_add(ntag, cb, 'ok' if cls == 'inserted' else cls)
                         if not keep:
                             continue
                         s3 = (m, sv, ntag, ex)
@@ -370,7 +476,7 @@ class TxnEngine(pair.PairEngine):
         for e in w['events']:
             if e['event'] in ('call', 'call_nob'):
                 oq, oi = e['what'][0], e['what'][1]
-                if oq in owners and oq != q and ('fail', 1) in self.summary.get((oq, oi), ()) and \
+                if oq in owners and oq != q and dirty_fail(self.summary.get((oq, oi), ())) and \
                         self._propagates(body, w, oq):
                     res['derived_from'] = oq
         return res
